@@ -13,32 +13,30 @@ import (
 	"github.com/bluenviron/mediacommon/v2/pkg/codecs/mpeg4audio"
 	mcmpegts "github.com/bluenviron/mediacommon/v2/pkg/formats/mpegts"
 	tscodecs "github.com/bluenviron/mediacommon/v2/pkg/formats/mpegts/codecs"
-	"pgregory.net/rapid"
 
 	v35 "github.com/bluenviron/mediamtx/internal/verifc35"
 )
 
-// c35G carries what generators need to know about the server (addresses only; nothing random).
+// c35G: generator context of one input. x is the choice source (see verifc35.Src: fair choices expanded from
+// rapid draws, with an oddity gate so that most exchanges stay valid up to the one place that is mutated).
 type c35G struct {
-	t *rapid.T
 	s *c35Srv
-	n int // input index inside the batch: keeps rapid labels distinct
+	x *v35.Src
 }
 
-func (g *c35G) l(label string) string { return fmt.Sprintf("i%d.%s", g.n, label) }
-
-func (g *c35G) pick(label string, opts ...string) string {
-	return rapid.SampledFrom(opts).Draw(g.t, g.l(label))
-}
-func (g *c35G) intn(label string, lo, hi int) int { return rapid.IntRange(lo, hi).Draw(g.t, g.l(label)) }
-func (g *c35G) chance(label string, oneIn int) bool {
-	return rapid.IntRange(0, oneIn-1).Draw(g.t, g.l(label)) == 0
-}
-func (g *c35G) token(label string) string  { return v35.EvilToken(g.t, g.l(label)) }
-func (g *c35G) long(label string) string   { return v35.MaybeLong(g.t, g.l(label)) }
-func (g *c35G) num(label string) string    { return v35.EvilNumStr(g.t, g.l(label)) }
-func (g *c35G) path(label string) string   { return v35.PathName(g.t, g.l(label)) }
-func (g *c35G) mut(label string, b []byte) []byte { return v35.MutateBytes(g.t, g.l(label), b) }
+func (g *c35G) pick(opts ...string) string        { return g.x.Pick(opts...) }
+func (g *c35G) pickBytes(opts ...[]byte) []byte   { return g.x.PickBytes(opts...) }
+func (g *c35G) rng(lo, hi int) int                { return g.x.Range(lo, hi) }
+func (g *c35G) chance(oneIn int) bool             { return g.x.Chance(oneIn) }
+func (g *c35G) odd(oneIn int) bool                { return g.x.Odd(oneIn) }
+func (g *c35G) oddCase(oneIn, n int) int          { return g.x.OddCase(oneIn, n) }
+func (g *c35G) token() string                     { return g.x.EvilToken() }
+func (g *c35G) long() string                      { return g.x.MaybeLong() }
+func (g *c35G) num() string                       { return g.x.EvilNumStr() }
+func (g *c35G) numOr(normal string, oneIn int) string { return g.x.NumStr(normal, oneIn) }
+func (g *c35G) path() string                      { return g.x.PathName() }
+func (g *c35G) mut(b []byte, oneIn int) []byte    { return g.x.MutateBytes(b, oneIn) }
+func (g *c35G) pubPath() string                   { return fmt.Sprintf("pub%d", g.x.Intn(4)) }
 
 var (
 	c35SPS = []byte{0x67, 0x42, 0xc0, 0x28, 0xd9, 0x00, 0x78, 0x02, 0x27, 0xe5, 0x84, 0x00, 0x00, 0x03, 0x00, 0x04, 0x00, 0x00, 0x03, 0x00, 0xf0, 0x3c, 0x60, 0xc9, 0x20}
@@ -48,103 +46,118 @@ var (
 
 // ---------------------------------------------------------------- SDP
 
-type c35SDPMedia struct {
-	kind string // H264, H265, ...
-	pt   int
-}
-
-func (g *c35G) sdpFmtp(lbl, codec string, pt string) []string {
+func (g *c35G) sdpFmtp(codec string, pt string) []string {
 	b64 := base64.StdEncoding.EncodeToString
 	var lines []string
 	add := func(params string) { lines = append(lines, "a=fmtp:"+pt+" "+params) }
 	switch codec {
 	case "H264":
-		switch g.intn(lbl+"fmtp", 0, 9) {
+		switch g.oddCase(4, 5) {
 		case 0: // none: missing sprop
 		case 1:
 			add("packetization-mode=1")
 		case 2:
-			add("packetization-mode=" + g.num(lbl+"pm") + ";sprop-parameter-sets=" + b64(c35SPS) + "," + b64(c35PPS) + ";profile-level-id=" + g.pick(lbl+"pli", "42c028", "", "zz", "42c0280000", "4"))
+			add("packetization-mode=" + g.num() + ";sprop-parameter-sets=" + b64(c35SPS) + "," + b64(c35PPS) + ";profile-level-id=" + g.pick("42c028", "", "zz", "42c0280000", "4"))
 		case 3:
-			add("packetization-mode=1;sprop-parameter-sets=" + g.pick(lbl+"sprop", "", ",", "AAAA", "Zw==,aA==", "!!!,???", b64(c35SPS), ","+b64(c35PPS), b64(c35SPS[:3])+","+b64(c35PPS), b64([]byte{0x67})+","+b64([]byte{0x68}), strings.Repeat("A", 20000)))
+			add("packetization-mode=1;sprop-parameter-sets=" + g.pick("", ",", "AAAA", "Zw==,aA==", "!!!,???", b64(c35SPS), ","+b64(c35PPS), b64(c35SPS[:3])+","+b64(c35PPS), b64([]byte{0x67})+","+b64([]byte{0x68}), strings.Repeat("A", 20000)))
 		case 4:
-			add(g.pick(lbl+"odd", "", ";", "=", ";;;", "a", "a=", "=b", "packetization-mode", "packetization-mode=1;packetization-mode=0", " packetization-mode = 1 ", "PACKETIZATION-MODE=1", strings.Repeat("a=b;", 3000)))
+			add(g.pick("", ";", "=", ";;;", "a", "a=", "=b", "packetization-mode", "packetization-mode=1;packetization-mode=0", " packetization-mode = 1 ", "PACKETIZATION-MODE=1", strings.Repeat("a=b;", 3000)))
 		default:
 			add("packetization-mode=1;sprop-parameter-sets=" + b64(c35SPS) + "," + b64(c35PPS) + ";profile-level-id=42c028")
 		}
 	case "H265":
-		switch g.intn(lbl+"fmtp", 0, 4) {
+		switch g.oddCase(4, 2) {
 		case 0:
 		case 1:
-			add("sprop-vps=" + g.pick(lbl+"vps", "", "QAEMAf//AWAAAAMAkAAAAwAAAwB4mZgJ", "!!", "AA==") + ";sprop-sps=" + g.pick(lbl+"sps", "", "QgEBAWAAAAMAkAAAAwAAAwB4oAPAgBDllmZpJMrgEAAAAwAQAAADAeCA", "Qg==", "!!") + ";sprop-pps=" + g.pick(lbl+"pps", "", "RAHBcrRiQA==", "RA==", "!!") + ";sprop-max-don-diff=" + g.num(lbl+"don"))
+			add("sprop-vps=" + g.pick("", "QAEMAf//AWAAAAMAkAAAAwAAAwB4mZgJ", "!!", "AA==") + ";sprop-sps=" + g.pick("", "QgEBAWAAAAMAkAAAAwAAAwB4oAPAgBDllmZpJMrgEAAAAwAQAAADAeCA", "Qg==", "!!") + ";sprop-pps=" + g.pick("", "RAHBcrRiQA==", "RA==", "!!") + ";sprop-max-don-diff=" + g.num())
 		default:
 			add("sprop-vps=QAEMAf//AWAAAAMAkAAAAwAAAwB4mZgJ;sprop-sps=QgEBAWAAAAMAkAAAAwAAAwB4oAPAgBDllmZpJMrgEAAAAwAQAAADAeCA;sprop-pps=RAHBcrRiQA==")
 		}
 	case "MPEG4-GENERIC", "mpeg4-generic":
-		switch g.intn(lbl+"fmtp", 0, 6) {
+		switch g.oddCase(4, 4) {
 		case 0:
 		case 1:
-			add("profile-level-id=1;mode=AAC-hbr;sizelength=" + g.num(lbl+"sl") + ";indexlength=" + g.num(lbl+"il") + ";indexdeltalength=" + g.num(lbl+"idl") + ";config=1210")
+			add("profile-level-id=1;mode=AAC-hbr;sizelength=" + g.num() + ";indexlength=" + g.num() + ";indexdeltalength=" + g.num() + ";config=1210")
 		case 2:
-			add("profile-level-id=1;mode=" + g.pick(lbl+"mode", "AAC-hbr", "AAC-lbr", "aac-hbr", "", "generic", "CELP-cbr") + ";sizelength=13;indexlength=3;indexdeltalength=3;config=" + g.pick(lbl+"cfg", "", "1", "12", "1210", "zz", "0000", "ffff", "f8e8500000", "1388", "12100000000000", strings.Repeat("12", 4000)))
+			add("profile-level-id=1;mode=" + g.pick("AAC-hbr", "AAC-lbr", "aac-hbr", "", "generic", "CELP-cbr") + ";sizelength=13;indexlength=3;indexdeltalength=3;config=" + g.pick("", "1", "12", "1210", "zz", "0000", "ffff", "f8e8500000", "1388", "12100000000000", strings.Repeat("12", 4000)))
 		case 3:
-			add("streamtype=5;profile-level-id=" + g.num(lbl+"pli") + ";mode=AAC-hbr;config=1190;sizelength=13;indexlength=3;indexdeltalength=3;constantduration=" + g.num(lbl+"cd"))
+			add("streamtype=5;profile-level-id=" + g.num() + ";mode=AAC-hbr;config=1190;sizelength=13;indexlength=3;indexdeltalength=3;constantduration=" + g.num())
 		default:
 			add("profile-level-id=1;mode=AAC-hbr;sizelength=13;indexlength=3;indexdeltalength=3;config=1210")
 		}
 	case "MP4A-LATM":
-		add("profile-level-id=" + g.num(lbl+"pli") + ";object=2;cpresent=" + g.pick(lbl+"cp", "0", "1", "", "2") + ";config=" + g.pick(lbl+"cfg", "400026203fc0", "", "40", "zz", "4000", "c00026203fc0", "ffffffffffff"))
+		if g.odd(3) {
+			add("profile-level-id=" + g.num() + ";object=2;cpresent=" + g.pick("0", "1", "", "2") + ";config=" + g.pick("400026203fc0", "", "40", "zz", "4000", "c00026203fc0", "ffffffffffff"))
+		} else {
+			add("profile-level-id=1;object=2;cpresent=0;config=400026203fc0")
+		}
 	case "opus":
-		if g.chance(lbl+"ofmtp", 2) {
-			add("sprop-stereo=" + g.num(lbl+"st") + ";stereo=" + g.num(lbl+"st2"))
+		if g.chance(2) {
+			add("sprop-stereo=" + g.numOr("1", 3) + ";stereo=" + g.numOr("1", 3))
 		}
 	case "MP4V-ES":
-		add("profile-level-id=" + g.num(lbl+"pli") + ";config=" + g.pick(lbl+"cfg", "000001b001000001b58913000001000000012000c48d8800f50a041e1463000001b24c61766335382e3133342e313030", "", "zz", "00"))
+		add("profile-level-id=" + g.numOr("1", 3) + ";config=" + g.pick("000001b001000001b58913000001000000012000c48d8800f50a041e1463000001b24c61766335382e3133342e313030", "000001b001000001b58913000001000000012000c48d8800f50a041e1463000001b24c61766335382e3133342e313030", "", "zz", "00"))
 	case "VP9", "VP8", "AV1":
-		if g.chance(lbl+"vfmtp", 2) {
-			add(g.pick(lbl+"vp", "profile-id="+g.num(lbl+"pid"), "max-fr="+g.num(lbl+"fr")+";max-fs="+g.num(lbl+"fs"), "level-idx="+g.num(lbl+"li")+";profile="+g.num(lbl+"pr")+";tier="+g.num(lbl+"ti")))
+		if g.chance(2) {
+			add(g.pick("profile-id="+g.numOr("0", 3), "max-fr="+g.numOr("30", 3)+";max-fs="+g.numOr("3600", 3), "level-idx="+g.numOr("5", 3)+";profile="+g.numOr("0", 3)+";tier="+g.numOr("0", 3)))
 		}
 	case "L16", "L8", "L24":
-		if g.chance(lbl+"lfmtp", 3) {
-			add("channel-order=" + g.token(lbl+"co"))
+		if g.odd(4) {
+			add("channel-order=" + g.token())
 		}
-	case "AC3":
 	case "vorbis":
-		add("configuration=" + g.pick(lbl+"cfg", "AQIDBA==", "", "!!"))
-	case "JPEG", "KLV", "smpte336m", "MP2T":
+		add("configuration=" + g.pick("AQIDBA==", "", "!!"))
 	}
 	return lines
 }
 
-var c35Codecs = []string{
-	"H264", "H264", "H264", "H265", "VP8", "VP9", "AV1", "opus", "MPEG4-GENERIC", "mpeg4-generic", "MP4A-LATM", "PCMU", "PCMA", "G722", "L16", "L8", "L24",
-	"MP4V-ES", "MPV", "MPA", "AC3", "vorbis", "JPEG", "MP2T", "MP2T", "KLV", "smpte336m", "speex", "X-UNKNOWN", "", "h264", "H264 ",
-}
+var (
+	c35CodecsMain = []string{"H264", "H264", "H264", "H265", "VP8", "VP9", "AV1", "opus", "opus", "MPEG4-GENERIC", "MPEG4-GENERIC", "MP4A-LATM", "PCMU", "PCMA", "G722", "L16", "MP4V-ES", "MPV", "MPA", "AC3", "JPEG", "MP2T", "KLV"}
+	c35CodecsOdd  = []string{"mpeg4-generic", "L8", "L24", "vorbis", "smpte336m", "speex", "X-UNKNOWN", "", "h264", "H264 "}
+)
 
-// sdp draws an SDP body: valid skeleton, odd details. Returns the body and the number of media sections.
-func (g *c35G) sdp(lbl string) (string, []string) {
+// sdp draws an SDP body: valid skeleton, odd details. Returns the body and the media control attributes.
+func (g *c35G) sdp() (string, []string) {
 	var b strings.Builder
 	var controls []string
 	line := func(s string) { b.WriteString(s + "\r\n") }
-	if !g.chance(lbl+"nov", 20) {
-		line("v=" + g.pick(lbl+"v", "0", "0", "0", "0", "1", "", "-1"))
+	if !g.odd(30) {
+		line("v=" + g.numOr("0", 20))
 	}
-	if !g.chance(lbl+"noo", 20) {
-		line(g.pick(lbl+"o", "o=- 0 0 IN IP4 127.0.0.1", "o=- 0 0 IN IP4 127.0.0.1", "o=", "o=- 99999999999999999999 0 IN IP6 ::1", "o=a b c d e f g"))
+	if !g.odd(30) {
+		if g.odd(20) {
+			line(g.pick("o=", "o=- 99999999999999999999 0 IN IP6 ::1", "o=a b c d e f g"))
+		} else {
+			line("o=- 0 0 IN IP4 127.0.0.1")
+		}
 	}
-	line("s=" + g.pick(lbl+"s", "Stream", "Stream", " ", "", "-"))
-	if !g.chance(lbl+"noc", 6) {
-		line(g.pick(lbl+"c", "c=IN IP4 0.0.0.0", "c=IN IP4 0.0.0.0", "c=IN IP4 224.1.0.1/16", "c=IN IP6 ::", "c=", "c=IN IP4"))
+	if g.odd(20) {
+		line("s=" + g.pick(" ", "", "-"))
+	} else {
+		line("s=Stream")
 	}
-	if !g.chance(lbl+"not", 10) {
-		line(g.pick(lbl+"t", "t=0 0", "t=0 0", "t=", "t=-1 -1", "t=99999999999999999999 0"))
+	if !g.odd(12) {
+		if g.odd(12) {
+			line(g.pick("c=IN IP4 224.1.0.1/16", "c=IN IP6 ::", "c=", "c=IN IP4"))
+		} else {
+			line("c=IN IP4 0.0.0.0")
+		}
 	}
-	if g.chance(lbl+"sessctl", 4) {
-		line("a=control:" + g.pick(lbl+"sc", "*", "rtsp://127.0.0.1/x", "", "/"))
+	if !g.odd(20) {
+		if g.odd(20) {
+			line(g.pick("t=", "t=-1 -1", "t=99999999999999999999 0"))
+		} else {
+			line("t=0 0")
+		}
 	}
-	nMedia := rapid.SampledFrom([]int{0, 1, 1, 1, 2, 2, 3, 6, 40}).Draw(g.t, g.l(lbl+"nmedia"))
+	if g.odd(12) {
+		line("a=control:" + g.pick("*", "rtsp://127.0.0.1/x", "", "/"))
+	}
+	nMedia := []int{1, 1, 1, 2, 2, 2, 3}[g.x.Intn(7)]
+	if g.odd(10) {
+		nMedia = []int{0, 6, 40}[g.x.Intn(3)]
+	}
 	for m := 0; m < nMedia; m++ {
-		ml := fmt.Sprintf("%sm%d", lbl, m)
 		if m >= 4 {
 			line(fmt.Sprintf("m=video 0 RTP/AVP %d", 96+m%30))
 			line(fmt.Sprintf("a=rtpmap:%d H264/90000", 96+m%30))
@@ -152,7 +165,10 @@ func (g *c35G) sdp(lbl string) (string, []string) {
 			controls = append(controls, fmt.Sprintf("trackID=%d", m))
 			continue
 		}
-		codec := rapid.SampledFrom(c35Codecs).Draw(g.t, g.l(ml+"codec"))
+		codec := c35CodecsMain[g.x.Intn(len(c35CodecsMain))]
+		if g.odd(10) {
+			codec = c35CodecsOdd[g.x.Intn(len(c35CodecsOdd))]
+		}
 		mtype := "video"
 		switch codec {
 		case "opus", "MPEG4-GENERIC", "mpeg4-generic", "MP4A-LATM", "PCMU", "PCMA", "G722", "L16", "L8", "L24", "MPA", "AC3", "vorbis", "speex":
@@ -160,14 +176,16 @@ func (g *c35G) sdp(lbl string) (string, []string) {
 		case "KLV", "smpte336m":
 			mtype = "application"
 		}
-		if g.chance(ml+"mtype", 8) {
-			mtype = g.pick(ml+"mtypev", "video", "audio", "application", "text", "message", "", "VIDEO", "x y")
+		if g.odd(15) {
+			mtype = g.pick("video", "audio", "application", "text", "message", "", "VIDEO", "x y")
 		}
-		// payload types
-		nFmt := rapid.SampledFrom([]int{1, 1, 1, 1, 1, 0, 2, 3}).Draw(g.t, g.l(ml+"nfmt"))
+		nFmt := 1
+		if g.odd(8) {
+			nFmt = []int{0, 2, 3}[g.x.Intn(3)] // zero formats / several formats in one media
+		}
 		var pts []string
 		for f := 0; f < nFmt; f++ {
-			pt := "96"
+			pt := fmt.Sprint(96 + f)
 			switch codec {
 			case "PCMU":
 				pt = "0"
@@ -183,23 +201,26 @@ func (g *c35G) sdp(lbl string) (string, []string) {
 				pt = "32"
 			case "MP2T":
 				pt = "33"
-			default:
-				pt = fmt.Sprint(96 + f)
 			}
-			if g.chance(fmt.Sprintf("%spt%d", ml, f), 5) {
-				pt = g.pick(fmt.Sprintf("%sptv%d", ml, f), "0", "8", "14", "26", "33", "35", "95", "96", "127", "128", "255", "256", "65536", "4294967296", "-1", "a", "", "96.5")
+			if g.odd(10) {
+				pt = g.pick("0", "8", "14", "26", "33", "35", "95", "96", "127", "128", "255", "256", "65536", "4294967296", "-1", "a", "", "96.5")
 			}
 			pts = append(pts, pt)
 		}
-		port := g.pick(ml+"port", "0", "0", "0", "5004", "65536", "-1", "0/2", "")
-		proto := g.pick(ml+"proto", "RTP/AVP", "RTP/AVP", "RTP/AVP", "RTP/AVP", "RTP/AVPF", "RTP/SAVP", "RTP/SAVPF", "UDP/TLS/RTP/SAVPF", "RTP/AVP/TCP", "udp", "")
-		line(strings.TrimRight("m="+mtype+" "+port+" "+proto+" "+strings.Join(pts, " "), " "))
-		if g.chance(ml+"b", 6) {
-			line("b=AS:" + g.num(ml+"bv"))
+		port, proto := "0", "RTP/AVP"
+		if g.odd(15) {
+			port = g.pick("5004", "65536", "-1", "0/2", "")
 		}
-		for f, pt := range pts {
-			fl := fmt.Sprintf("%sf%d", ml, f)
-			if codec != "" && !g.chance(fl+"normap", 8) {
+		if g.odd(12) {
+			proto = g.pick("RTP/AVPF", "RTP/SAVP", "RTP/SAVPF", "UDP/TLS/RTP/SAVPF", "RTP/AVP/TCP", "udp", "")
+		}
+		line(strings.TrimRight("m="+mtype+" "+port+" "+proto+" "+strings.Join(pts, " "), " "))
+		if g.odd(15) {
+			line("b=AS:" + g.num())
+		}
+		for _, pt := range pts {
+			staticPT := codec == "PCMU" || codec == "PCMA" || codec == "G722" || codec == "MPA" || codec == "JPEG" || codec == "MPV" || codec == "MP2T"
+			if codec != "" && !(staticPT && g.chance(2)) && !g.odd(15) {
 				clock := "90000"
 				switch codec {
 				case "opus":
@@ -210,51 +231,46 @@ func (g *c35G) sdp(lbl string) (string, []string) {
 					clock = "24000/2"
 				case "PCMU", "PCMA", "G722":
 					clock = "8000"
-				case "L16", "L8", "L24":
-					clock = "48000/2"
-				case "AC3":
+				case "L16", "L8", "L24", "AC3":
 					clock = "48000/2"
 				case "vorbis":
 					clock = "44100/2"
-				case "KLV", "smpte336m":
-					clock = "90000"
 				}
-				if g.chance(fl+"clock", 4) {
-					clock = g.pick(fl+"clockv", "0", "0/0", "1", "-1", "90000/0", "48000/0", "48000/255", "48000/256", "48000/65536", "4294967296", "99999999999999999999", "", "/", "/2", "48000/", "8000/1/1", "abc", "8000.5", "44100/2", "7350/1", "96000/8", "1/1")
+				if g.odd(6) {
+					clock = g.pick("0", "0/0", "1", "-1", "90000/0", "48000/0", "48000/255", "48000/256", "48000/65536", "4294967296", "99999999999999999999", "", "/", "/2", "48000/", "8000/1/1", "abc", "8000.5", "44100/2", "7350/1", "96000/8", "1/1")
 				}
 				line("a=rtpmap:" + pt + " " + codec + "/" + clock)
 			}
-			for _, fm := range g.sdpFmtp(fl, codec, pt) {
+			for _, fm := range g.sdpFmtp(codec, pt) {
 				line(fm)
 			}
 		}
-		if g.chance(ml+"dir", 5) {
-			line("a=" + g.pick(ml+"dirv", "sendonly", "recvonly", "sendrecv", "inactive"))
+		if g.odd(12) {
+			line("a=" + g.pick("sendonly", "recvonly", "sendrecv", "inactive"))
 		}
-		if g.chance(ml+"extra", 6) {
-			line(g.pick(ml+"extrav", "a=framerate:"+g.num(ml+"fr"), "a=x-dimensions:"+g.num(ml+"w")+","+g.num(ml+"h"), "a=", "a", "a=rtpmap", "a=rtpmap:", "a=fmtp", "a=fmtp:96", "a=rtpmap:96", "a=rtpmap:96 ", "a=crypto:1 AES_CM_128_HMAC_SHA1_80 inline:"+g.token(ml+"cr"), "a=mid:"+g.token(ml+"mid"), "x=y", "=", "\x00"))
+		if g.odd(10) {
+			line(g.pick("a=framerate:"+g.num(), "a=x-dimensions:"+g.num()+","+g.num(), "a=", "a", "a=rtpmap", "a=rtpmap:", "a=fmtp", "a=fmtp:96", "a=rtpmap:96", "a=rtpmap:96 ", "a=crypto:1 AES_CM_128_HMAC_SHA1_80 inline:"+g.token(), "a=mid:"+g.token(), "x=y", "=", "\x00"))
 		}
 		ctl := fmt.Sprintf("trackID=%d", m)
-		switch g.intn(ml+"ctl", 0, 9) {
+		switch g.oddCase(8, 3) {
 		case 0:
 			ctl = ""
 		case 1:
-			ctl = g.pick(ml+"ctlv", "*", "/", "rtsp://127.0.0.1:1/other/trackID=0", "trackID=99999999999", "trackID=-1", "trackID=", "mediaUUID=zz", "?x", "../x", "a b", strings.Repeat("A", 3000))
+			ctl = g.pick("*", "/", "rtsp://127.0.0.1:1/other/trackID=0", "trackID=99999999999", "trackID=-1", "trackID=", "mediaUUID=zz", "?x", "../x", "a b", strings.Repeat("A", 3000))
 		case 2:
 			ctl = "trackID=0" // duplicate controls
-		default:
 		}
-		if ctl != "" || g.chance(ml+"emptyctl", 2) {
+		if ctl != "" || g.chance(2) {
 			line("a=control:" + ctl)
 		}
 		controls = append(controls, ctl)
 	}
 	out := b.String()
-	if g.chance(lbl+"lf", 10) {
+	if g.odd(20) {
 		out = strings.ReplaceAll(out, "\r\n", "\n")
 	}
-	if g.chance(lbl+"trunc", 15) && len(out) > 2 {
-		out = out[:g.intn(lbl+"truncAt", 0, len(out)-1)]
+	if g.odd(25) && len(out) > 2 {
+		out = out[:g.rng(0, len(out)-1)]
 	}
 	return out, controls
 }
@@ -279,45 +295,39 @@ func c35Interleaved(ch byte, payload []byte) []byte {
 	return append(out, payload...)
 }
 
-func (g *c35G) rtpPayload(lbl string) []byte {
-	switch g.intn(lbl+"kind", 0, 12) {
-	case 0:
-		return c35IDR
-	case 1:
-		return c35SPS
-	case 2: // STAP-A sps+pps+idr
-		var p []byte
-		p = append(p, 24)
-		for _, n := range [][]byte{c35SPS, c35PPS, c35IDR} {
-			p = append(p, byte(len(n)>>8), byte(len(n)))
-			p = append(p, n...)
-		}
-		return p
-	case 3: // STAP-A with lying sizes
-		return g.pickBytes(lbl+"stap", []byte{24, 0xff, 0xff, 0x65}, []byte{24, 0, 0}, []byte{24}, []byte{24, 0, 1}, []byte{24, 0, 2, 0x67, 0x42, 0, 0})
-	case 4: // FU-A start / middle / end, odd flags
-		return g.pickBytes(lbl+"fua", []byte{28, 0x85, 1, 2, 3}, []byte{28, 0x05, 1, 2}, []byte{28, 0x45, 9}, []byte{28, 0xc5, 1}, []byte{28}, []byte{28, 0x85}, []byte{28, 0x80}, []byte{29, 0x85, 0, 0, 1})
-	case 5: // H265 AP / FU
-		return g.pickBytes(lbl+"h265", []byte{0x60, 0x01, 0xff, 0xff}, []byte{0x62, 0x01, 0x93, 1, 2}, []byte{0x62, 0x01}, []byte{0x40, 0x01, 0x0c}, []byte{0x26, 0x01, 0xaf}, []byte{0x60, 0x01, 0x00, 0x00})
-	case 6: // AAC-hbr AU headers
-		return g.pickBytes(lbl+"aac", []byte{0x00, 0x10, 0x00, 0x30, 1, 2, 3, 4, 5, 6}, []byte{0xff, 0xff, 0xff, 0xff}, []byte{0x00, 0x10, 0xff, 0xf8, 1}, []byte{0x00, 0x00}, []byte{0x00}, []byte{0x00, 0x20, 0x00, 0x08, 0x00, 0x08, 1, 1})
-	case 7: // MPEG-TS packets
-		n := g.intn(lbl+"tsn", 1, 7)
-		ts := g.tsPackets(lbl+"ts", n)
-		return ts
-	case 8: // VP8/VP9/AV1 descriptors
-		return g.pickBytes(lbl+"vpx", []byte{0x10, 0x00}, []byte{0x90, 0x80, 0x01, 0x9d, 0x01, 0x2a}, []byte{0x80}, []byte{0xff, 0xff, 0xff, 0xff, 0xff}, []byte{0x8a, 0x00, 0x01}, []byte{0x18, 0x0a}, []byte{0x10, 0xff})
-	case 9:
-		return nil
-	case 10:
-		return make([]byte, rapid.SampledFrom([]int{1, 1460, 1500, 4000, 65000}).Draw(g.t, g.l(lbl+"zeros")))
-	default:
-		return rapid.SliceOfN(rapid.Byte(), 1, 40).Draw(g.t, g.l(lbl+"rnd"))
+func c35StapA() []byte {
+	p := []byte{24}
+	for _, n := range [][]byte{c35SPS, c35PPS, c35IDR} {
+		p = append(p, byte(len(n)>>8), byte(len(n)))
+		p = append(p, n...)
 	}
+	return p
 }
 
-func (g *c35G) pickBytes(lbl string, opts ...[]byte) []byte {
-	return opts[g.intn(lbl, 0, len(opts)-1)]
+// rtpPayload: mostly what an H264 sender emits, sometimes the edge of some depacketizer.
+func (g *c35G) rtpPayload() []byte {
+	switch g.oddCase(3, 9) {
+	case 0: // STAP-A with lying sizes
+		return g.pickBytes([]byte{24, 0xff, 0xff, 0x65}, []byte{24, 0, 0}, []byte{24}, []byte{24, 0, 1}, []byte{24, 0, 2, 0x67, 0x42, 0, 0})
+	case 1: // FU-A start / middle / end, odd flags
+		return g.pickBytes([]byte{28, 0x85, 1, 2, 3}, []byte{28, 0x05, 1, 2}, []byte{28, 0x45, 9}, []byte{28, 0xc5, 1}, []byte{28}, []byte{28, 0x85}, []byte{28, 0x80}, []byte{29, 0x85, 0, 0, 1})
+	case 2: // H265 AP / FU
+		return g.pickBytes([]byte{0x60, 0x01, 0xff, 0xff}, []byte{0x62, 0x01, 0x93, 1, 2}, []byte{0x62, 0x01}, []byte{0x40, 0x01, 0x0c}, []byte{0x26, 0x01, 0xaf}, []byte{0x60, 0x01, 0x00, 0x00})
+	case 3: // AAC-hbr AU headers
+		return g.pickBytes([]byte{0x00, 0x10, 0x00, 0x30, 1, 2, 3, 4, 5, 6}, []byte{0xff, 0xff, 0xff, 0xff}, []byte{0x00, 0x10, 0xff, 0xf8, 1}, []byte{0x00, 0x00}, []byte{0x00}, []byte{0x00, 0x20, 0x00, 0x08, 0x00, 0x08, 1, 1})
+	case 4: // MPEG-TS packets on a non-TS track
+		return g.tsPackets(g.rng(1, 7))
+	case 5: // VP8/VP9/AV1 descriptors
+		return g.pickBytes([]byte{0x10, 0x00}, []byte{0x90, 0x80, 0x01, 0x9d, 0x01, 0x2a}, []byte{0x80}, []byte{0xff, 0xff, 0xff, 0xff, 0xff}, []byte{0x8a, 0x00, 0x01}, []byte{0x18, 0x0a}, []byte{0x10, 0xff})
+	case 6:
+		return nil
+	case 7:
+		return make([]byte, []int{1, 1460, 1500, 4000, 65000}[g.x.Intn(5)])
+	case 8:
+		return g.x.Bytes(1, 40)
+	default:
+		return g.pickBytes(c35IDR, c35SPS, c35StapA(), []byte{0x41, 0x9a, 0x00, 0x10}, []byte{28, 0x85, 0x88, 0x84}, []byte{28, 0x45, 0x00, 0x10})
+	}
 }
 
 var (
@@ -335,7 +345,7 @@ func c35ValidTS() []byte {
 		if err := w.Initialize(); err != nil {
 			panic(err)
 		}
-		for i := 0; i < 4; i++ {
+		for i := 0; i < 6; i++ {
 			pts := int64(i) * 3000
 			if err := w.WriteH264(vt, pts, pts, [][]byte{c35SPS, c35PPS, c35IDR}); err != nil {
 				panic(err)
@@ -349,32 +359,36 @@ func c35ValidTS() []byte {
 	return c35TSValid
 }
 
-// tsPackets: the first n packets of the valid stream (tables first), lightly damaged.
-func (g *c35G) tsPackets(lbl string, n int) []byte {
+// tsPackets: n packets of the valid stream (tables first), sometimes damaged.
+func (g *c35G) tsPackets(n int) []byte {
 	ts := c35ValidTS()
 	total := len(ts) / 188
 	start := 0
-	if g.chance(lbl+"mid", 3) && total > n {
-		start = g.intn(lbl+"start", 0, total-n)
+	if g.odd(6) && total > n {
+		start = g.rng(0, total-n)
 	}
 	if start+n > total {
 		n = total - start
 	}
-	return g.mut(lbl+"mut", ts[start*188:(start+n)*188])
+	return g.mut(ts[start*188:(start+n)*188], 3)
 }
 
-func (g *c35G) rtcp(lbl string) []byte {
-	return g.pickBytes(lbl,
-		[]byte{0x80, 0xc8, 0x00, 0x06, 0, 0, 0, 1, 0, 0, 0, 0, 0, 0, 0, 0, 0, 0, 0, 0, 0, 0, 0, 0, 0, 0, 0, 0}, // SR
-		[]byte{0x81, 0xc9, 0x00, 0x07, 0, 0, 0, 1, 0, 0, 0, 2, 0, 0, 0, 0, 0, 0, 0, 0, 0, 0, 0, 0, 0, 0, 0, 0, 0, 0, 0, 0}, // RR
-		[]byte{0x81, 0xcb, 0x00, 0x01, 0, 0, 0, 1},       // BYE
-		[]byte{0x80, 0xc8, 0xff, 0xff, 0, 0, 0, 1},       // SR with lying length
-		[]byte{0x9f, 0xc9, 0x00, 0x01, 0, 0, 0, 1},       // RR count 31 without blocks
-		[]byte{0x80, 0xc8},                               // truncated
-		[]byte{0x81, 0xcd, 0x00, 0x02, 0, 0, 0, 1, 0, 0, 0, 2}, // generic NACK without FCI
-		[]byte{0x8f, 0xce, 0x00, 0x02, 0, 0, 0, 1, 0, 0, 0, 2}, // PSFB AFB
-		[]byte{0x81, 0xca, 0x00, 0x02, 0, 0, 0, 1, 1, 0xff, 0, 0}, // SDES with lying item length
+func (g *c35G) rtcp() []byte {
+	rr := []byte{0x81, 0xc9, 0x00, 0x07, 0, 0, 0, 1, 0x11, 0x22, 0x33, 0x44, 0, 0, 0, 0, 0, 0, 0, 0, 0, 0, 0, 0, 0, 0, 0, 0, 0, 0, 0, 0}
+	sr := []byte{0x80, 0xc8, 0x00, 0x06, 0x11, 0x22, 0x33, 0x44, 0xe0, 0, 0, 0, 0, 0, 0, 0, 0, 0, 0, 0, 0, 0, 0, 1, 0, 0, 0, 10}
+	if !g.odd(2) {
+		return g.pickBytes(rr, sr)
+	}
+	return g.pickBytes(
+		[]byte{0x81, 0xcb, 0x00, 0x01, 0, 0, 0, 1},                  // BYE
+		[]byte{0x80, 0xc8, 0xff, 0xff, 0, 0, 0, 1},                  // SR with lying length
+		[]byte{0x9f, 0xc9, 0x00, 0x01, 0, 0, 0, 1},                  // RR count 31 without blocks
+		[]byte{0x80, 0xc8},                                          // truncated
+		[]byte{0x81, 0xcd, 0x00, 0x02, 0, 0, 0, 1, 0, 0, 0, 2},      // generic NACK without FCI
+		[]byte{0x8f, 0xce, 0x00, 0x02, 0, 0, 0, 1, 0, 0, 0, 2},      // PSFB AFB
+		[]byte{0x81, 0xca, 0x00, 0x02, 0, 0, 0, 1, 1, 0xff, 0, 0},   // SDES with lying item length
 		[]byte{0x00, 0x00, 0x00, 0x00},
+		append(append([]byte(nil), sr...), rr...), // compound
 	)
 }
 
@@ -401,79 +415,86 @@ func (r c35RTSPReq) bytes() []byte {
 	return []byte(b.String())
 }
 
-func (g *c35G) rtspURL(lbl, path, suffix string) string {
-	base := "rtsp://" + g.s.addr("rtsp") + "/"
+func (g *c35G) rtspURL(path, suffix string) string {
+	addr := g.s.addr("rtsp")
+	base := "rtsp://" + addr + "/"
 	u := base + path + suffix
-	switch g.intn(lbl+"urlodd", 0, 19) {
+	switch g.oddCase(12, 3) {
 	case 0:
-		return g.pick(lbl+"urlv", "*", "/", "", "rtsp://", "rtsp:///", "rtsp://127.0.0.1", "rtsp://127.0.0.1:99999/live", "rtsp://[::1/live", "rtsp://user:pass@"+g.s.addr("rtsp")+"/"+path+suffix, "rtsps://"+g.s.addr("rtsp")+"/"+path, "http://"+g.s.addr("rtsp")+"/"+path, path, "/"+path, "rtsp://"+g.s.addr("rtsp"), "rtsp://"+g.s.addr("rtsp")+"//"+path, "rtsp://"+g.s.addr("rtsp")+"/%", "rtsp://"+g.s.addr("rtsp")+"/"+path+"/trackID=0/trackID=1")
+		return g.pick("*", "/", "", "rtsp://", "rtsp:///", "rtsp://127.0.0.1", "rtsp://127.0.0.1:99999/live", "rtsp://[::1/live", "rtsp://user:pass@"+addr+"/"+path+suffix, "rtsps://"+addr+"/"+path, "http://"+addr+"/"+path, path, "/"+path, "rtsp://"+addr, "rtsp://"+addr+"//"+path, "rtsp://"+addr+"/%", "rtsp://"+addr+"/"+path+"/trackID=0/trackID=1")
 	case 1:
-		return u + "?" + g.pick(lbl+"q", "user=admin&pass=x", "token=x", "jwt=a.b.c", "%zz", "a=b&a=c", "?", "&&&", "/trackID=0", g.long(lbl+"ql"))
+		return u + "?" + g.pick("user=admin&pass=x", "token=x", "jwt=a.b.c", "%zz", "a=b&a=c", "?", "&&&", "/trackID=0", g.long())
 	case 2:
-		return base + g.long(lbl+"plong") + suffix
-	default:
-		return u
+		return base + g.long() + suffix
 	}
+	return u
 }
 
-func (g *c35G) rtspCommonHeaders(lbl string, cseq int, r *c35RTSPReq) {
-	switch g.intn(lbl+"cseq", 0, 14) {
+func (g *c35G) rtspCommonHeaders(cseq int, r *c35RTSPReq) {
+	switch g.oddCase(12, 4) {
 	case 0: // missing
 	case 1:
-		r.hdr = append(r.hdr, [2]string{"CSeq", g.num(lbl + "cseqv")})
+		r.hdr = append(r.hdr, [2]string{"CSeq", g.num()})
 	case 2:
-		r.hdr = append(r.hdr, [2]string{"CSeq", fmt.Sprint(cseq)}, [2]string{"CSeq", g.num(lbl + "cseq2")})
+		r.hdr = append(r.hdr, [2]string{"CSeq", fmt.Sprint(cseq)}, [2]string{"CSeq", g.num()})
 	case 3:
 		r.hdr = append(r.hdr, [2]string{"cseq", fmt.Sprint(cseq)})
 	default:
 		r.hdr = append(r.hdr, [2]string{"CSeq", fmt.Sprint(cseq)})
 	}
-	if g.chance(lbl+"ua", 3) {
-		r.hdr = append(r.hdr, [2]string{"User-Agent", g.pick(lbl+"uav", "c35", "", "FFmpeg", "Lavf58.29.100", g.long(lbl+"ual"))})
+	if g.chance(3) {
+		ua := g.pick("c35", "FFmpeg", "Lavf58.29.100", "LibVLC/3.0.18 (LIVE555 Streaming Media v2016.11.28)")
+		if g.odd(8) {
+			ua = g.pick("", g.long())
+		}
+		r.hdr = append(r.hdr, [2]string{"User-Agent", ua})
 	}
-	if g.chance(lbl+"auth", 5) {
-		r.hdr = append(r.hdr, [2]string{"Authorization", g.pick(lbl+"authv",
-			"Basic "+c35B64("admin:wrong"), "Basic "+c35B64("nocolon"), "Basic !!!", "Basic", "Basic ", "Bearer x",
+	if g.odd(10) || (g.s.Restricted && g.chance(3)) {
+		r.hdr = append(r.hdr, [2]string{"Authorization", g.pick(
+			"Basic "+c35B64("admin:wrong"), "Basic "+c35B64(c35AdminUser+":wrong"), "Basic "+c35B64("nocolon"), "Basic !!!", "Basic", "Basic ", "Bearer x",
 			`Digest username="admin", realm="IPCAM", nonce="abc", uri="rtsp://x/", response="0123456789abcdef0123456789abcdef"`,
+			`Digest username="`+c35AdminUser+`", realm="IPCAM", nonce="abc", uri="rtsp://x/", response="0123456789abcdef0123456789abcdef"`,
 			`Digest username="admin"`, `Digest `, `Digest username=`, `Digest username="a", realm="b", nonce="c", uri="d", response="e", algorithm=SHA-256`,
 			`Digest ,,,,=,=,`, `Digest username="`+strings.Repeat("a", 5000)+`"`, "", "x")})
 	}
-	if g.chance(lbl+"odd", 8) {
-		r.hdr = append(r.hdr, [2]string{"\x00raw", g.pick(lbl+"oddv", "NoColonHeader", ": novalue", "X-Empty:", " leading: space", "X-Fold: a\r\n b", "X\x00Y: z", "Require: "+g.token(lbl+"req"), "Content-Type: "+g.token(lbl+"ct"), "Range: npt="+g.num(lbl+"r1")+"-"+g.num(lbl+"r2"), "Range: clock=19961108T143720.25Z-", "Range: smpte=10:07:33-", "Scale: "+g.num(lbl+"sc"), "Speed: "+g.num(lbl+"sp"), "Blocksize: "+g.num(lbl+"bs"), "Content-Base: "+g.token(lbl+"cb"), "Accept: "+g.token(lbl+"acc"), "X-Long: "+v35.LongString(g.t, g.l(lbl+"xl")))})
+	if g.odd(14) {
+		r.hdr = append(r.hdr, [2]string{"\x00raw", g.pick("NoColonHeader", ": novalue", "X-Empty:", " leading: space", "X-Fold: a\r\n b", "X\x00Y: z", "Require: "+g.token(), "Content-Type: "+g.token(), "Range: npt="+g.num()+"-"+g.num(), "Range: clock=19961108T143720.25Z-", "Range: smpte=10:07:33-", "Scale: "+g.num(), "Speed: "+g.num(), "Blocksize: "+g.num(), "Content-Base: "+g.token(), "Accept: "+g.token(), "X-Long: "+g.x.LongString())})
 	}
-	if g.chance(lbl+"many", 40) {
+	if g.odd(80) {
 		for i := 0; i < 300; i++ {
 			r.hdr = append(r.hdr, [2]string{fmt.Sprintf("X-H%d", i), "v"})
 		}
 	}
 }
 
-func (g *c35G) rtspTransport(lbl string, record bool) string {
+func (g *c35G) rtspTransport(record bool) string {
 	mode := ""
 	if record {
 		mode = ";mode=record"
 	}
-	switch g.intn(lbl+"tr", 0, 15) {
-	case 0, 1, 2, 3, 4, 5:
-		ch := g.intn(lbl+"ch", 0, 3) * 2
-		return fmt.Sprintf("RTP/AVP/TCP;unicast;interleaved=%d-%d%s", ch, ch+1, mode)
-	case 6, 7:
-		return fmt.Sprintf("RTP/AVP;unicast;client_port=%s%s", g.pick(lbl+"cp", "35466-35467", "35466-35467", "0-0", "1-1", "65535-65536", "35467-35466", "35466", "-", "a-b", "35466-35467-35468", "99999999999-99999999999"), mode)
-	case 8:
-		return "RTP/AVP;multicast" + g.pick(lbl+"mc", "", ";destination=224.1.0.1", ";destination=127.0.0.1;port=1-2;ttl=127", ";ttl="+g.num(lbl+"ttl"), ";port="+g.num(lbl+"port"), mode)
-	case 9:
-		return "RTP/AVP/TCP;unicast;interleaved=" + g.pick(lbl+"il", "0-0", "1-0", "255-256", "254-255", "65535-65536", "-1-0", "a-b", "0", "", "0-1-2", "99999999999-99999999999", "0-1;interleaved=2-3") + mode
-	case 10:
-		return g.pick(lbl+"prof", "RTP/SAVP;unicast;client_port=35466-35467", "RTP/SAVP/TCP;unicast;interleaved=0-1", "RTP/AVPF;unicast;client_port=1-2", "RAW/RAW/UDP;unicast;client_port=1-2", "RTP/AVP/UDP;unicast;client_port=35466-35467", "MP2T/H2221/UDP;unicast", "rtp/avp/tcp;UNICAST;INTERLEAVED=0-1", "RTP/AVP/TCP", "RTP", "", ";", ";;;", "=", "/", "RTP/AVP/TCP;unicast;interleaved=0-1,RTP/AVP;unicast;client_port=1-2") + mode
-	case 11:
-		return "RTP/AVP/TCP;unicast;interleaved=0-1;mode=" + g.pick(lbl+"mode", "record", "RECORD", "\"RECORD\"", "play", "PLAY", "receive", "", "x", "record,play")
-	case 12:
-		return "RTP/AVP/TCP;unicast;interleaved=0-1" + mode + ";ssrc=" + g.pick(lbl+"ssrc", "DEADBEEF", "0", "zz", "", "123456789ABCDEF", "-1") + ";" + g.pick(lbl+"extra", "server_port=1-2", "source=127.0.0.1", "destination="+g.token(lbl+"dst"), "layers=2", "append", "ttl=x", g.token(lbl+"x")+"="+g.token(lbl+"y"))
-	case 13:
-		return v35.LongString(g.t, g.l(lbl+"trlong"))
-	default:
-		return "RTP/AVP/TCP;unicast;interleaved=0-1" + mode
+	switch g.oddCase(6, 8) {
+	case 0:
+		return fmt.Sprintf("RTP/AVP;unicast;client_port=%s%s", g.pick("0-0", "1-1", "65535-65536", "35467-35466", "35466", "-", "a-b", "35466-35467-35468", "99999999999-99999999999"), mode)
+	case 1:
+		return "RTP/AVP;multicast" + g.pick("", ";destination=224.1.0.1", ";destination=127.0.0.1;port=1-2;ttl=127", ";ttl="+g.num(), ";port="+g.num(), mode)
+	case 2:
+		return "RTP/AVP/TCP;unicast;interleaved=" + g.pick("0-0", "1-0", "255-256", "254-255", "65535-65536", "-1-0", "a-b", "0", "", "0-1-2", "99999999999-99999999999", "0-1;interleaved=2-3") + mode
+	case 3:
+		return g.pick("RTP/SAVP;unicast;client_port=35466-35467", "RTP/SAVP/TCP;unicast;interleaved=0-1", "RTP/AVPF;unicast;client_port=1-2", "RAW/RAW/UDP;unicast;client_port=1-2", "RTP/AVP/UDP;unicast;client_port=35466-35467", "MP2T/H2221/UDP;unicast", "rtp/avp/tcp;UNICAST;INTERLEAVED=0-1", "RTP/AVP/TCP", "RTP", "", ";", ";;;", "=", "/", "RTP/AVP/TCP;unicast;interleaved=0-1,RTP/AVP;unicast;client_port=1-2") + mode
+	case 4:
+		return "RTP/AVP/TCP;unicast;interleaved=0-1;mode=" + g.pick("record", "RECORD", "\"RECORD\"", "play", "PLAY", "receive", "", "x", "record,play")
+	case 5:
+		return "RTP/AVP/TCP;unicast;interleaved=0-1" + mode + ";ssrc=" + g.pick("DEADBEEF", "0", "zz", "", "123456789ABCDEF", "-1") + ";" + g.pick("server_port=1-2", "source=127.0.0.1", "destination="+g.token(), "layers=2", "append", "ttl=x", g.token()+"="+g.token())
+	case 6:
+		return g.x.LongString()
+	case 7:
+		return "RTP/AVP;multicast" + mode
 	}
+	// normal: TCP interleaved mostly, UDP unicast sometimes
+	if g.chance(5) {
+		return "RTP/AVP;unicast;client_port=35466-35467" + mode
+	}
+	return "RTP/AVP/TCP;unicast;interleaved={{CH}}" + mode
 }
 
 var c35RTSPMethods = []string{"OPTIONS", "DESCRIBE", "ANNOUNCE", "SETUP", "PLAY", "RECORD", "PAUSE", "TEARDOWN", "GET_PARAMETER", "SET_PARAMETER", "REDIRECT", "GET", "POST", "options", "FOO", "", "PLAY_NOTIFY", "DESCRIBE DESCRIBE"}
@@ -481,42 +502,52 @@ var c35RTSPMethods = []string{"OPTIONS", "DESCRIBE", "ANNOUNCE", "SETUP", "PLAY"
 // genRTSP draws one RTSP exchange.
 func (g *c35G) genRTSP() *c35Input {
 	in := &c35Input{L: "rtsp", K: "tcp", Proto: "rtsp"}
-	path := g.path("path")
-	flow := g.pick("flow", "read", "read", "read", "publish", "publish", "publish", "publish-ts", "random", "random", "raw", "tunnel")
+	path := g.path()
+	flow := g.pick("read", "read", "read", "read", "publish", "publish", "publish", "publish", "publish-ts", "publish-ts", "random")
+	if g.odd(12) {
+		flow = g.pick("raw", "tunnel", "random")
+	}
 	in.Cls = "rtsp-" + flow
 	cseq := 0
+	setups := 0
 	var notes []string
 	add := func(r c35RTSPReq, wait bool) {
 		d := r.bytes()
-		if g.chance(fmt.Sprintf("dmg%d", len(in.Segs)), 12) {
-			d = v35.MutateBytesAlways(g.t, g.l(fmt.Sprintf("dmgv%d", len(in.Segs))), d)
+		if g.odd(25) {
+			d = g.x.MutateBytesAlways(d)
 			notes = append(notes, r.method+"(damaged)")
 		} else {
 			notes = append(notes, r.method)
 		}
 		in.Segs = append(in.Segs, c35Seg{D: d, Wait: wait})
 	}
-	mk := func(lbl, method, url string) c35RTSPReq {
+	mk := func(method, url string) c35RTSPReq {
 		cseq++
 		proto := "RTSP/1.0"
-		if g.chance(lbl+"proto", 25) {
-			proto = g.pick(lbl+"protov", "RTSP/2.0", "RTSP/1.1", "HTTP/1.1", "RTSP/1.0 ", "RTSP", "", "RTSP/9999999999.0", "rtsp/1.0")
+		if g.odd(40) {
+			proto = g.pick("RTSP/2.0", "RTSP/1.1", "HTTP/1.1", "RTSP/1.0 ", "RTSP", "", "RTSP/9999999999.0", "rtsp/1.0")
 		}
-		if g.chance(lbl+"meth", 25) {
-			method = rapid.SampledFrom(c35RTSPMethods).Draw(g.t, g.l(lbl+"methv"))
+		if g.odd(40) {
+			method = c35RTSPMethods[g.x.Intn(len(c35RTSPMethods))]
 		}
 		r := c35RTSPReq{method: method, url: url, proto: proto}
-		g.rtspCommonHeaders(lbl, cseq, &r)
+		g.rtspCommonHeaders(cseq, &r)
 		return r
 	}
-	withBody := func(lbl string, r *c35RTSPReq, ctype, body string) {
+	transport := func(record bool) string {
+		t := g.rtspTransport(record)
+		t = strings.ReplaceAll(t, "{{CH}}", fmt.Sprintf("%d-%d", setups*2, setups*2+1))
+		setups++
+		return t
+	}
+	withBody := func(r *c35RTSPReq, ctype, body string) {
 		r.body = body
 		if ctype != "" {
 			r.hdr = append(r.hdr, [2]string{"Content-Type", ctype})
 		}
-		switch g.intn(lbl+"cl", 0, 11) {
+		switch g.oddCase(10, 3) {
 		case 0:
-			r.hdr = append(r.hdr, [2]string{"Content-Length", g.pick(lbl+"clv", "0", "-1", "1", "99999", "4294967296", "99999999999999999999", "abc", "", "1e3", fmt.Sprint(len(body)+1), fmt.Sprint(len(body)/2))})
+			r.hdr = append(r.hdr, [2]string{"Content-Length", g.pick("0", "-1", "1", "99999", "4294967296", "99999999999999999999", "abc", "", "1e3", fmt.Sprint(len(body)+1), fmt.Sprint(len(body)/2))})
 		case 1: // missing
 		case 2:
 			r.hdr = append(r.hdr, [2]string{"Content-Length", fmt.Sprint(len(body))}, [2]string{"Content-Length", "0"})
@@ -524,11 +555,11 @@ func (g *c35G) genRTSP() *c35Input {
 			r.hdr = append(r.hdr, [2]string{"Content-Length", fmt.Sprint(len(body))})
 		}
 	}
-	session := func(lbl string, r *c35RTSPReq) {
-		switch g.intn(lbl+"sess", 0, 9) {
+	session := func(r *c35RTSPReq) {
+		switch g.oddCase(10, 2) {
 		case 0: // missing
 		case 1:
-			r.hdr = append(r.hdr, [2]string{"Session", g.pick(lbl+"sessv", "00000000", "", ";timeout=60", "{{SESSION}};timeout=abc", "{{SESSION}}x", g.long(lbl+"sessl"))})
+			r.hdr = append(r.hdr, [2]string{"Session", g.pick("00000000", "", ";timeout=60", "{{SESSION}};timeout=abc", "{{SESSION}}x", g.long())})
 		default:
 			r.hdr = append(r.hdr, [2]string{"Session", "{{SESSION}}"})
 		}
@@ -536,67 +567,77 @@ func (g *c35G) genRTSP() *c35Input {
 
 	switch flow {
 	case "read":
-		if g.chance("opt", 2) {
-			add(mk("opt", "OPTIONS", g.rtspURL("optu", path, "")), true)
+		if g.chance(2) {
+			add(mk("OPTIONS", g.rtspURL(path, "")), true)
 		}
-		d := mk("desc", "DESCRIBE", g.rtspURL("descu", path, ""))
-		d.hdr = append(d.hdr, [2]string{"Accept", g.pick("accept", "application/sdp", "application/sdp", "application/sdp", "*/*", "", "text/plain")})
+		d := mk("DESCRIBE", g.rtspURL(path, ""))
+		accept := "application/sdp"
+		if g.odd(12) {
+			accept = g.pick("*/*", "", "text/plain")
+		}
+		d.hdr = append(d.hdr, [2]string{"Accept", accept})
 		add(d, true)
-		nSetup := g.intn("nsetup", 0, 3)
-		for i := 0; i < nSetup; i++ {
-			l := fmt.Sprintf("setup%d", i)
+		nSetup := g.pick("1", "2", "2", "2")[0] - '0'
+		if g.odd(10) {
+			nSetup = g.pick("0", "3")[0] - '0'
+		}
+		for i := 0; i < int(nSetup); i++ {
 			track := fmt.Sprintf("/trackID=%d", i)
-			if g.chance(l+"trk", 6) {
-				track = g.pick(l+"trkv", "", "/trackID=", "/trackID=99", "/trackID=-1", "/trackID=4294967296", "/trackID=a", "/mediaUUID=00000000-0000-0000-0000-000000000000", "/trackID=0/trackID=0", "/", "/x")
+			if g.odd(10) {
+				track = g.pick("", "/trackID=", "/trackID=99", "/trackID=-1", "/trackID=4294967296", "/trackID=a", "/mediaUUID=00000000-0000-0000-0000-000000000000", "/trackID=0/trackID=0", "/", "/x")
 			}
-			r := mk(l, "SETUP", g.rtspURL(l+"u", path, track))
-			r.hdr = append(r.hdr, [2]string{"Transport", g.rtspTransport(l+"t", false)})
+			r := mk("SETUP", g.rtspURL(path, track))
+			r.hdr = append(r.hdr, [2]string{"Transport", transport(false)})
 			if i > 0 {
-				session(l, &r)
+				session(&r)
 			}
 			add(r, true)
 		}
-		if g.chance("play", 1) || true {
-			r := mk("play", "PLAY", g.rtspURL("playu", path, ""))
-			session("play", &r)
-			if g.chance("range", 3) {
-				r.hdr = append(r.hdr, [2]string{"Range", "npt=" + g.pick("rangev", "0.000-", "0-", "now-", "-", "1e400-", "-5", "0-0", "a-b", "99999999999999999999-")})
+		play := mk("PLAY", g.rtspURL(path, ""))
+		session(&play)
+		if g.chance(3) {
+			rg := "0.000-"
+			if g.odd(4) {
+				rg = g.pick("0-", "now-", "-", "1e400-", "-5", "0-0", "a-b", "99999999999999999999-")
 			}
-			add(r, true)
+			play.hdr = append(play.hdr, [2]string{"Range", "npt=" + rg})
 		}
-		for i := 0; i < g.intn("after", 0, 3); i++ {
-			l := fmt.Sprintf("after%d", i)
-			switch g.intn(l+"k", 0, 5) {
+		add(play, true)
+		for i := 0; i < g.rng(0, 3); i++ {
+			switch g.x.Intn(6) {
 			case 0:
-				r := mk(l, "GET_PARAMETER", g.rtspURL(l+"u", path, ""))
-				session(l, &r)
+				r := mk("GET_PARAMETER", g.rtspURL(path, ""))
+				session(&r)
 				add(r, true)
 			case 1:
-				r := mk(l, "PAUSE", g.rtspURL(l+"u", path, ""))
-				session(l, &r)
+				r := mk("PAUSE", g.rtspURL(path, ""))
+				session(&r)
 				add(r, true)
 			case 2: // client-to-server interleaved data while playing (RTCP receiver reports, junk)
-				ch := byte(g.pick(l+"ch", "1", "1", "0", "3", "9", "200")[0] - '0')
-				in.Segs = append(in.Segs, c35Seg{D: c35Interleaved(ch, g.rtcp(l + "rtcp"))})
+				ch := byte(1)
+				if g.odd(4) {
+					ch = byte(g.rng(0, 255))
+				}
+				in.Segs = append(in.Segs, c35Seg{D: c35Interleaved(ch, g.rtcp())})
 				notes = append(notes, "$rtcp")
 			case 3:
-				r := mk(l, "SETUP", g.rtspURL(l+"u", path, "/trackID=0"))
-				r.hdr = append(r.hdr, [2]string{"Transport", g.rtspTransport(l+"t", false)})
-				session(l, &r)
+				r := mk("SETUP", g.rtspURL(path, "/trackID=0"))
+				r.hdr = append(r.hdr, [2]string{"Transport", transport(false)})
+				session(&r)
 				add(r, true)
 			case 4:
-				r := mk(l, "PLAY", g.rtspURL(l+"u", path, ""))
-				session(l, &r)
+				r := mk("PLAY", g.rtspURL(path, ""))
+				session(&r)
 				add(r, true)
 			default:
-				r := mk(l, "TEARDOWN", g.rtspURL(l+"u", path, ""))
-				session(l, &r)
+				r := mk("TEARDOWN", g.rtspURL(path, ""))
+				session(&r)
 				add(r, true)
 			}
 		}
 	case "publish", "publish-ts":
-		pubPath := fmt.Sprintf("pub%d", g.intn("pubn", 0, 3))
-		if g.chance("pubpath", 6) {
+		pubPath := g.pubPath()
+		if g.odd(10) {
 			pubPath = path
 		}
 		var body string
@@ -605,178 +646,181 @@ func (g *c35G) genRTSP() *c35Input {
 			body = "v=0\r\no=- 0 0 IN IP4 127.0.0.1\r\ns=Stream\r\nc=IN IP4 0.0.0.0\r\nt=0 0\r\nm=video 0 RTP/AVP 33\r\na=control:trackID=0\r\n"
 			controls = []string{"trackID=0"}
 		} else {
-			body, controls = g.sdp("sdp")
+			body, controls = g.sdp()
 		}
-		a := mk("ann", "ANNOUNCE", g.rtspURL("annu", pubPath, ""))
-		withBody("ann", &a, g.pick("annct", "application/sdp", "application/sdp", "application/sdp", "application/sdp", "", "text/plain", "application/SDP; charset=utf-8"), body)
+		a := mk("ANNOUNCE", g.rtspURL(pubPath, ""))
+		ct := "application/sdp"
+		if g.odd(12) {
+			ct = g.pick("", "text/plain", "application/SDP; charset=utf-8")
+		}
+		withBody(&a, ct, body)
 		add(a, true)
-		nSetup := len(controls)
-		if nSetup > 3 {
-			nSetup = 3
-		}
-		if g.chance("nsetupodd", 6) {
-			nSetup = g.intn("nsetupv", 0, 4)
+		nSetup := min(len(controls), 3)
+		if g.odd(10) {
+			nSetup = g.rng(0, 4)
 		}
 		for i := 0; i < nSetup; i++ {
-			l := fmt.Sprintf("setup%d", i)
 			ctl := fmt.Sprintf("trackID=%d", i)
 			if i < len(controls) && controls[i] != "" && !strings.Contains(controls[i], "://") && len(controls[i]) < 100 {
 				ctl = controls[i]
 			}
-			r := mk(l, "SETUP", g.rtspURL(l+"u", pubPath, "/"+ctl))
-			r.hdr = append(r.hdr, [2]string{"Transport", g.rtspTransport(l+"t", true)})
+			r := mk("SETUP", g.rtspURL(pubPath, "/"+ctl))
+			r.hdr = append(r.hdr, [2]string{"Transport", transport(true)})
 			if i > 0 {
-				session(l, &r)
+				session(&r)
 			}
 			add(r, true)
 		}
-		rec := mk("rec", "RECORD", g.rtspURL("recu", pubPath, ""))
-		session("rec", &rec)
+		rec := mk("RECORD", g.rtspURL(pubPath, ""))
+		session(&rec)
 		add(rec, true)
 		// media
-		nPk := g.intn("npk", 0, 8)
-		seq := uint16(g.intn("seq0", 0, 65535))
+		nPk := g.rng(0, 8)
+		seq := uint16(g.rng(0, 65535))
 		for i := 0; i < nPk; i++ {
-			l := fmt.Sprintf("pk%d", i)
 			ch := byte(0)
-			switch g.intn(l+"ch", 0, 9) {
+			switch g.oddCase(5, 3) {
 			case 0:
 				ch = 1
 			case 1:
-				ch = byte(g.intn(l+"chv", 0, 255))
+				ch = byte(g.rng(0, 255))
 			case 2:
 				ch = 2
-			default:
 			}
 			var pl []byte
 			if ch%2 == 1 {
-				pl = g.rtcp(l + "rtcp")
+				pl = g.rtcp()
 			} else {
 				pt := byte(96)
 				if flow == "publish-ts" {
 					pt = 33
 				}
-				if g.chance(l+"pt", 8) {
-					pt = byte(g.intn(l+"ptv", 0, 127))
+				if g.odd(12) {
+					pt = byte(g.rng(0, 127))
 				}
 				var payload []byte
-				if flow == "publish-ts" && !g.chance(l+"nots", 6) {
-					payload = g.tsPackets(l+"ts", g.intn(l+"tsn", 1, 7))
+				if flow == "publish-ts" && !g.odd(10) {
+					payload = g.tsPackets(g.rng(1, 7))
 				} else {
-					payload = g.rtpPayload(l + "pl")
+					payload = g.rtpPayload()
 				}
-				pl = c35RTP(pt, g.chance(l+"m", 2), seq, uint32(i)*3000, 0x11223344, payload)
-				seq += uint16(g.pick(l+"seqstep", "1", "1", "1", "1", "0", "2", "9")[0] - '0')
-				if g.chance(l+"hdr", 10) {
-					pl = v35.MutateBytesAlways(g.t, g.l(l+"hdrmut"), pl[:min(len(pl), 16)])
+				pl = c35RTP(pt, g.chance(2), seq, uint32(i)*3000, 0x11223344, payload)
+				seq++
+				if g.odd(8) {
+					seq += uint16(g.rng(0, 9)) - 1
+				}
+				if g.odd(15) {
+					pl = g.x.MutateBytesAlways(pl[:min(len(pl), 16)])
 				}
 			}
 			fr := c35Interleaved(ch, pl)
-			if g.chance(l+"len", 12) { // lying frame length
-				binary.BigEndian.PutUint16(fr[2:4], uint16(rapid.SampledFrom([]int{0, 1, len(pl) + 1, len(pl) + 100, 65535}).Draw(g.t, g.l(l+"lenv"))))
+			if g.odd(15) { // lying frame length
+				binary.BigEndian.PutUint16(fr[2:4], uint16([]int{0, 1, len(pl) + 1, len(pl) + 100, 65535}[g.x.Intn(5)]))
 			}
 			in.Segs = append(in.Segs, c35Seg{D: fr})
 		}
 		notes = append(notes, fmt.Sprintf("$x%d", nPk))
-		if g.chance("teardown", 3) {
-			r := mk("td", "TEARDOWN", g.rtspURL("tdu", pubPath, ""))
-			session("td", &r)
+		if g.chance(3) {
+			r := mk("TEARDOWN", g.rtspURL(pubPath, ""))
+			session(&r)
 			add(r, true)
 		}
 	case "random":
-		n := g.intn("nreq", 1, 6)
-		pipelined := g.chance("pipelined", 2)
+		n := g.rng(1, 6)
+		pipelined := g.chance(2)
 		for i := 0; i < n; i++ {
-			l := fmt.Sprintf("r%d", i)
-			method := rapid.SampledFrom(c35RTSPMethods).Draw(g.t, g.l(l+"m"))
+			method := c35RTSPMethods[g.x.Intn(len(c35RTSPMethods))]
 			suffix := ""
-			if g.chance(l+"sfx", 3) {
-				suffix = g.pick(l+"sfxv", "/trackID=0", "/trackID=1", "/", "/x/y")
+			if g.chance(3) {
+				suffix = g.pick("/trackID=0", "/trackID=1", "/", "/x/y")
 			}
-			r := mk(l, method, g.rtspURL(l+"u", path, suffix))
-			if g.chance(l+"tr", 2) {
-				r.hdr = append(r.hdr, [2]string{"Transport", g.rtspTransport(l+"t", g.chance(l+"trrec", 2))})
+			r := mk(method, g.rtspURL(path, suffix))
+			if g.chance(2) {
+				r.hdr = append(r.hdr, [2]string{"Transport", transport(g.chance(2))})
 			}
-			if g.chance(l+"se", 2) {
-				session(l, &r)
+			if g.chance(2) {
+				session(&r)
 			}
-			if g.chance(l+"body", 3) {
-				body, _ := g.sdp(l + "sdp")
-				if g.chance(l+"bodyk", 3) {
-					body = g.pick(l+"bodyv", "", "x", "packets_received\r\njitter\r\n", v35.LongString(g.t, g.l(l+"bodyl")))
+			if g.chance(3) {
+				body, _ := g.sdp()
+				if g.chance(3) {
+					body = g.pick("", "x", "packets_received\r\njitter\r\n", g.x.LongString())
 				}
-				withBody(l, &r, g.pick(l+"ct", "application/sdp", "text/parameters", ""), body)
+				withBody(&r, g.pick("application/sdp", "text/parameters", ""), body)
 			}
 			add(r, !pipelined)
 		}
 	case "raw":
-		d := g.pickBytes("rawv",
+		d := g.pickBytes(
 			[]byte("$"), []byte("$\x00"), []byte("$\x00\xff\xff"), []byte("$\x00\x00\x00"), []byte("$\xff\x00\x04abcd$\x00\x00\x01"),
 			[]byte("\r\n\r\n\r\n"), []byte("OPTIONS"), []byte("OPTIONS * RTSP/1.0"), []byte("OPTIONS * RTSP/1.0\r\n"), []byte("OPTIONS * RTSP/1.0\r\nCSeq: 1\r\n"),
 			[]byte("\x16\x03\x01\x02\x00\x01\x00\x01\xfc\x03\x03"), []byte("GET / HTTP/1.1\r\nHost: x\r\n\r\n"), []byte{0, 0, 0, 0}, []byte(strings.Repeat("A", 70000)),
 			[]byte("RTSP/1.0 200 OK\r\nCSeq: 1\r\n\r\n"), []byte("RTSP/1.0 200 OK\r\nCSeq: 1\r\nContent-Length: 5\r\n\r\nhello"),
 			[]byte("DESCRIBE rtsp://x/live RTSP/1.0\r\nCSeq: 1\r\nContent-Length: 100000000\r\n\r\n"),
 		)
-		if g.chance("rawrnd", 3) {
-			d = rapid.SliceOfN(rapid.Byte(), 1, 200).Draw(g.t, g.l("rawbytes"))
+		if g.chance(3) {
+			d = g.x.Bytes(1, 200)
 		}
 		in.Segs = append(in.Segs, c35Seg{D: d})
 		notes = append(notes, "raw "+v35.Short(d))
 	case "tunnel": // RTSP-over-HTTP tunnel and websocket-looking requests on the RTSP port
-		ck := g.pick("cookie", "abc", "", g.long("cookiel"))
+		ck := g.pick("abc", "", g.long())
 		get := fmt.Sprintf("GET /%s HTTP/1.1\r\nx-sessioncookie: %s\r\nAccept: application/x-rtsp-tunnelled\r\nCSeq: 1\r\n\r\n", path, ck)
 		in.Segs = append(in.Segs, c35Seg{D: []byte(get), Wait: true})
 		post := fmt.Sprintf("POST /%s HTTP/1.1\r\nx-sessioncookie: %s\r\nContent-Type: application/x-rtsp-tunnelled\r\nContent-Length: 32767\r\nCSeq: 2\r\n\r\n%s", path, ck,
-			g.pick("tunbody", base64.StdEncoding.EncodeToString([]byte("OPTIONS rtsp://x/live RTSP/1.0\r\nCSeq: 1\r\n\r\n")), "!!!!", "", "T1BUSU9OUw"))
-		in.Segs = append(in.Segs, c35Seg{D: []byte(post), New: g.chance("tunnew", 2), Wait: true})
+			g.pick(base64.StdEncoding.EncodeToString([]byte("OPTIONS rtsp://x/live RTSP/1.0\r\nCSeq: 1\r\n\r\n")), "!!!!", "", "T1BUSU9OUw"))
+		in.Segs = append(in.Segs, c35Seg{D: []byte(post), New: g.chance(2), Wait: true})
 		notes = append(notes, "http-tunnel")
 	}
 
-	// delivery: partial writes, half close, split in odd places
-	switch g.intn("delivery", 0, 9) {
+	g.deliverRaw(in, &notes)
+	in.Note = fmt.Sprintf("rtsp %s path=%s: %s", flow, v35.Short([]byte(path)), strings.Join(notes, " "))
+	return in
+}
+
+// deliverRaw: how the bytes reach the server: partial writes, half close, truncation.
+func (g *c35G) deliverRaw(in *c35Input, notes *[]string) {
+	switch g.oddCase(5, 3) {
 	case 0:
 		in.Half = true
-	case 1: // split the first request in two writes with a pause
+		*notes = append(*notes, "[half-close]")
+	case 1: // split the first write in two with a pause
 		if len(in.Segs) > 0 && len(in.Segs[0].D) > 4 {
 			d := in.Segs[0].D
-			cut := g.intn("cut", 1, len(d)-1)
-			first := c35Seg{D: d[:cut]}
-			second := c35Seg{D: d[cut:], Wait: in.Segs[0].Wait, Pause: g.intn("pause", 0, 30)}
+			cut := g.rng(1, len(d)-1)
+			first := c35Seg{D: d[:cut], New: in.Segs[0].New}
+			second := c35Seg{D: d[cut:], Wait: in.Segs[0].Wait, Pause: g.rng(0, 30)}
 			in.Segs = append([]c35Seg{first, second}, in.Segs[1:]...)
-			notes = append(notes, "split")
+			*notes = append(*notes, "[split]")
 		}
 	case 2: // truncate the last write, then close
 		if len(in.Segs) > 0 {
 			d := in.Segs[len(in.Segs)-1].D
 			if len(d) > 2 {
-				in.Segs[len(in.Segs)-1].D = d[:g.intn("trunc", 1, len(d)-1)]
+				in.Segs[len(in.Segs)-1].D = d[:g.rng(1, len(d)-1)]
 				in.Segs[len(in.Segs)-1].Wait = false
-				in.Half = g.chance("trunchalf", 2)
-				notes = append(notes, "truncated")
+				in.Half = g.chance(2)
+				*notes = append(*notes, "[truncated]")
 			}
 		}
-	default:
 	}
-	in.Note = "rtsp " + flow + " path=" + v35.Short([]byte(path)) + ": " + strings.Join(notes, " ")
-	return in
 }
 
 // genRTSPUDP: datagrams to the shared RTP / RTCP listeners.
 func (g *c35G) genRTSPUDP() *c35Input {
-	in := &c35Input{L: g.pick("port", "rtp", "rtcp"), K: "udp", Proto: "raw", Cls: "rtsp-udp"}
-	n := g.intn("n", 1, 4)
+	in := &c35Input{L: g.pick("rtp", "rtcp"), K: "udp", Proto: "raw", Cls: "rtsp-udp"}
+	n := g.rng(1, 4)
 	for i := 0; i < n; i++ {
-		l := fmt.Sprintf("d%d", i)
 		var d []byte
-		switch g.intn(l+"k", 0, 4) {
+		switch g.x.Intn(4) {
 		case 0:
-			d = g.rtcp(l + "rtcp")
+			d = g.rtcp()
 		case 1:
-			d = c35RTP(byte(g.intn(l+"pt", 0, 127)), false, uint16(i), 0, 1, g.rtpPayload(l+"pl"))
+			d = c35RTP(byte(g.rng(0, 127)), false, uint16(i), 0, 1, g.rtpPayload())
 		case 2:
-			d = rapid.SliceOfN(rapid.Byte(), 0, 64).Draw(g.t, g.l(l+"rnd"))
+			d = g.x.Bytes(0, 64)
 		default:
-			d = g.mut(l+"mut", c35RTP(96, true, uint16(i), 0, 1, c35IDR))
+			d = g.x.MutateBytesAlways(c35RTP(96, true, uint16(i), 0, 1, c35IDR))
 		}
 		in.Segs = append(in.Segs, c35Seg{D: d})
 	}
